@@ -26,7 +26,7 @@ func init() {
 			return evid.Spec{ID: "C11", Level: "exploration", Exhaustive: true,
 				Rule: "command path: rule alphabet = name{configure,show,*} x action{permit,deny} x match{none, [p] for 15 patterns (plain, alternation, partial anchors, escaped/unescaped dot, wildcards, invalid, padded, prefix alternations, lazy quantifier, empty branches), 6 pairs}; " +
 					"policies = every single rule, every ordered pair of user rules, every (user rule, group rule) pair over the full alphabet, and every 3- and 4-rule policy (2 user + 1+1 group rules) over a reduced 12-rule alphabet; " +
-					"requests = cmd{configure,show,conf} x 10 argument lists x {service first, cmd first} x {cmd=, cmd*} x {shell, ppp}. session path: 1-3 services (user and group) over name{shell,ppp,junos-exec} x " +
+					"requests = cmd{configure,show,conf} x 12 argument lists (two with a repeated token) x {service first, cmd first} x {cmd=, cmd*} x {shell, ppp}. session path: 1-3 services (user and group) over name{shell,ppp,junos-exec} x " +
 					"match{none,[protocol=ip],[scope=s1],both} x set_values{[a=1],[b*2],both} x requests{service=shell cmd=, service=ppp protocol=ip, service=ppp protocol=ipx, service*shell, none, and the same with a client-supplied scope=s1 / scope=s2 attribute} x connection scope{s1,s2}. " +
 					"history plane: one authorizer instance answers every ordered pair (thorough: also every triple) of 26 requests = cmd{show, 'show ip', 'show ip route', configure, 'configure terminal'} x 5 argument lists + a session request, under every single rule and rule pair over name{show,'show ip',configure,*} x action x match{none,[ip route],[route],[.*],[terminal]}; each answer is judged on its own (same typed line, different cmd/argument split). " +
 					"loader plane: a user assigned to three scopes (all six orders) with one scope-conditioned service per scope and a group service for one scope, authorizers built by the real loader, session authorizations on connections of each scope through the full server; " +
@@ -258,7 +258,9 @@ func c11RuleAlphabet(reduced bool) []ref.Rule {
 }
 
 func c11Requests() [][]string {
-	argLists := [][]string{{}, {"terminal"}, {"exclusive"}, {"terminal", ";", "reload"}, {"terminal;reload"}, {"terminal", "<cr>"}, {"<cr>"}, {"xx", "terminal"}, {"te-minal"}, {" terminal "}}
+	argLists := [][]string{{}, {"terminal"}, {"exclusive"}, {"terminal", ";", "reload"}, {"terminal;reload"}, {"terminal", "<cr>"}, {"<cr>"}, {"xx", "terminal"}, {"te-minal"}, {" terminal "},
+		// the same token more than once: the argument string is what was typed, repetitions included
+		{"terminal", "terminal"}, {"xx", "terminal", "xx"}}
 	var out [][]string
 	for _, cmd := range []string{"configure", "show", "conf"} {
 		for _, al := range argLists {
